@@ -173,7 +173,8 @@ class TU:
         for n in ast['inner']:
             if kind(n) == 'VarDecl':
                 nm = n['name']
-                if nm in LIBC_OBJECTS or nm.startswith('_IO_') or nm.startswith('__'):
+                has_init = any(kind(c) and not kind(c).endswith('Attr') and not kind(c).endswith('Comment') for c in inner(n))
+                if nm in LIBC_OBJECTS or nm.startswith('_IO_') or (nm.startswith('__') and n.get('storageClass') == 'extern' and not has_init):
                     self.libc_objs[n['id']] = nm
                 else:
                     self.gvars[n['id']] = nm
@@ -687,6 +688,7 @@ def public_from_headers(repo):
         if not fn.endswith('.h'): continue
         txt = open(os.path.join(repo, 'include', fn)).read()
         txt = re.sub(r'/\*.*?\*/', ' ', txt, flags=re.S)
+        txt = re.sub(r'^[ \t]*#.*$', ' ', txt, flags=re.M)
         for m in re.finditer(r'\b(?:XRL_EXTERN|XRL_DEPRECATED)\b([^;{]*?)\(', txt):
             ids = re.findall(r'[A-Za-z_]\w*', m.group(1))
             if ids and 'define' not in m.group(1): out.add(ids[-1])
@@ -762,7 +764,9 @@ def emit(an, repo, lean_path, json_path):
                                                  unknown_writes=sorted(an.fns[n].unknown_writes), statics=sorted(an.fns[n].statics),
                                                  callees=sorted(an.fns[n].callees), exts=sorted(an.fns[n].exts),
                                                  param_writes=sorted(an.fns[n].sum.pw), returns=sorted(an.fns[n].sum.ret),
-                                                 locale_ops=an.fns[n].locale_ops, locale_complex=an.fns[n].locale_complex) for n in names},
+                                                 locale_ops=an.fns[n].locale_ops, locale_complex=an.fns[n].locale_complex,
+                                                 ret=qt(an.fns[n].node).split('(')[0].strip(),
+                                                 params=[[p_.get('name', ''), qt(p_)] for p_ in an.fns[n].params]) for n in names},
                 classes=cls, undefined_public=undefined, problems=an.problems,
                 sha256=hashlib.sha256(txt.encode()).hexdigest())
     json.dump(meta, open(json_path, 'w'), indent=1)
